@@ -674,7 +674,102 @@ def generate(ctx):
             for _ in range(ctx.n(7, 12)):
                 calls.append(gen_call(rng, sigs, si, len(calls)))
         batches.append(dict(kind="batch", tag="b%d" % b, sigs=sigs, calls=calls))
+    batches.append(gen_layout(rng, ctx.n(400, 3000)))
     return batches
+
+
+# ------------------------------------------------------------------ exchange layout (fb_build) observed on the real ctype
+
+LAYOUT_DECLS = cc.PRELUDE_DECLS + """
+struct L1 { long double x; char c; };
+struct L2 { char c[3]; };
+struct L3 { short h; char c[5]; };
+struct L4 { long double a[3]; int k; };
+"""
+LAYOUT_TYPES = (sorted(cc.INTS) + ['_Bool'] + sorted(cc.CHARS) + sorted(cc.FLOATS) + sorted(cc.STRUCTS) + sorted(cc.ASTRUCTS)
+                + sorted(cc.PTRS) + [cc.FNPTR, 'struct L1', 'struct L2', 'struct L3', 'struct L4'])
+LAYOUT_SMALL = ['char', 'signed char', 'short', '_Bool', 'struct s4', 'struct L2', 'struct L3', 'char16_t', 'struct a7']
+LAYOUT_BIG = ['long double', 'struct L1', 'struct L4', 'struct s3', 'struct a6', 'struct a8']
+
+
+def gen_layout(rng, n):
+    """signatures for the fb_build observation: 0..14 arguments; result void / small / 16-aligned; runs of 1-3-5-7-byte and of
+    16-aligned arguments so that both ALIGN_TO and ALIGN_ARG have work to do at every position"""
+    sigs = [dict(res='void', args=[]), dict(res='long double', args=[]), dict(res='struct L1', args=['char']),
+            dict(res='char', args=['struct L2', 'long double', 'struct L3', 'struct L1', 'char'])]
+    while len(sigs) < n:
+        pool = rng.choice([LAYOUT_TYPES, LAYOUT_TYPES, LAYOUT_SMALL, LAYOUT_BIG, LAYOUT_SMALL + LAYOUT_BIG])
+        k = rng.choice([0, 1, 1, 2, 2, 3, 3, 4, 5, 6, 7, 8, 11, 14])
+        res = rng.choice(['void'] + LAYOUT_TYPES) if rng.random() < 0.6 else rng.choice(LAYOUT_SMALL + LAYOUT_BIG)
+        args = [rng.choice(pool) for _ in range(k)]
+        if rng.random() < 0.1 and args:
+            args[rng.randrange(len(args))] = rng.choice(['int[3]', 'char[]', 'struct s1[2]'])     # arrays decay to pointers
+        sigs.append(dict(res=res, args=args))
+    return dict(kind="layout", tag="L", sigs=sigs)
+
+
+def layout_unsafe(sig, L):
+    """the property-level predicate, decided on the OBSERVED numbers: every region cdata_call/ffi_call writes (the array
+    of argument pointers, the result slot of max(size, sizeof(ffi_arg)) bytes, every argument) lies inside
+    [0, exchange_size), regions are pairwise disjoint, and every slot is aligned as its ffi_type requires"""
+    n = len(L["args"])
+    regions = [("argument pointers", 0, 8 * n), ("result", L["res_off"], max(L["rsize"], 8))]
+    regions += [("argument %d" % i, o, sa[0]) for i, (o, sa) in enumerate(zip(L["arg_offs"], L["args"]))]
+    for name, o, sz in regions:
+        if o < 0 or o + sz > L["exchange_size"]:
+            return "%s [%d, %d) is outside the exchange buffer of %d bytes" % (name, o, o + sz, L["exchange_size"])
+    if L["res_off"] % L["ralign"]:
+        return "result slot %d is not aligned to %d" % (L["res_off"], L["ralign"])
+    for i, (o, sa) in enumerate(zip(L["arg_offs"], L["args"])):
+        if o % sa[1]:
+            return "argument %d at %d is not aligned to %d" % (i, o, sa[1])
+    rs = sorted(regions, key=lambda r: (r[1], r[1] + r[2]))
+    for a, b in zip(rs, rs[1:]):
+        if a[1] + a[2] > b[1]:
+            return "%s [%d, %d) overlaps %s [%d, %d)" % (a[0], a[1], a[1] + a[2], b[0], b[1], b[1] + b[2])
+    return None
+
+
+def evaluate_layout(ctx, batch):
+    s = ctx.scratch()
+    out, p = s.run_worker("c13_layout_worker.py", dict(cdef=LAYOUT_DECLS, sigs=batch["sigs"]), timeout=900)
+    if out is None:
+        raise vlib.BuildError("C13 layout worker failed (rc=%s): %s" % (p.returncode, (p.stderr or p.stdout or "")[-1500:]))
+    cases, owner = [], []
+    for sig, L in zip(batch["sigs"], out["layouts"]):
+        one = dict(kind="layout", tag="L", sigs=[sig])
+        ctx.count(1)
+        if "unreadable" in L or "error" in L:
+            ctx.obligation_broken("C13 exchange-layout observation",
+                                  "cannot read cif_description_t of %s(*)(%s): %r" % (sig["res"], ", ".join(sig["args"]), L))
+            return
+        ctx.hist("layout_nargs", len(sig["args"]))
+        if len(sig["args"]) >= 2:
+            ctx.nontrivial("L:%s:%s" % (sig["res"], ",".join(sig["args"])))
+        why = layout_unsafe(sig, L)
+        if why:
+            ctx.violation(one, "fb_build laid out %s(*)(%s) unsafely: %s (observed %r)"
+                          % (sig["res"], ", ".join(sig["args"]), why, L), None)
+            continue
+        inp = "(%s, %s, [%s])" % (cz(L["rsize"]), cz(L["ralign"]), ";".join("(%s, %s)" % (cz(a), cz(b)) for a, b in L["args"]))
+        exp = zl([L["res_off"], L["exchange_size"]] + L["arg_offs"])
+        cases.append((inp, exp))
+        owner.append((one, sig, L))
+    prelude = ("Definition zl_eqb := list_eqb Z.eqb.\n"
+               "Definition lay (x : Z * Z * list (Z * Z)) : list Z := let '(rs, ra, args) := x in\n"
+               "  match exec_fb_raw fb_build_prog rs ra args with Some (r, _, offs, sz) => r :: sz :: offs | None => [] end.\n")
+    bad, outs_, err = vlib.coq_mismatches(["C13.FbLang", "C13.Gen"], "lay", "zl_eqb", cases,
+                                          prelude=prelude, shard=400)
+    if err:
+        ctx.obligation_broken("C13 layout model evaluation", err)
+    for b in bad:
+        one, sig, L = owner[b]
+        ctx.mismatch(one, "the translated fb_build statements give [res_off; exchange_size; arg offsets] = %s, the real "
+                     "cif_description_t of %s(*)(%s) holds %s" % (outs_.get(b), sig["res"], ", ".join(sig["args"]),
+                                                                  [L["res_off"], L["exchange_size"]] + L["arg_offs"]),
+                     "C13.Gen.fb_build_prog (translated fb_build statements) vs cif_description_t read back from the ctype")
+    ctx.cov.setdefault("layout_cases", 0)
+    ctx.cov["layout_cases"] += len(cases)
 
 
 # ------------------------------------------------------------------ evaluation
@@ -840,6 +935,9 @@ def expected_ret_literal(res, o):
 
 def evaluate(ctx, cases):
     for batch in cases:
+        if batch.get("kind") == "layout":
+            evaluate_layout(ctx, batch)
+            continue
         evaluate_batch(ctx, batch, asan=False)
         if ctx.thorough and batch["tag"] in ("b0", "r"):
             evaluate_batch(ctx, batch, asan=True)
@@ -999,7 +1097,12 @@ def run(ctx):
                        "wrong-type/arity argument, or with pointer/struct/variadic arguments; distinct by (signature, arguments).")
     ctx.assumptions += [
         "hand-written model C13/Model.v of the generated-wrapper conversions and of convert_from_object/convert_to_object/"
-        "_prepare_pointer_call_argument/fb_build; tied to the code by this run's differential test (not by translation)",
+        "_prepare_pointer_call_argument; tied to the code by this run's differential test (not by translation)",
+        "fb_build: the layout statements and the ALIGN_TO/ALIGN_ARG bodies are TRANSLATED from the source on every run "
+        "(C13/Gen.v fb_build_prog) and proved equal to the model (C13_gen_fb_build_is_model); the control skeleton around them "
+        "is matched literally; evaluation is over unbounded integers (no Py_ssize_t overflow is assumed, not proved); the "
+        "translated program is also compared with the exchange_size/exchange_offset_arg[] read back (ctypes, no hook) from "
+        "the cif_description_t of real function ctypes (sizes/alignments taken from the real ffi_type structs)",
         "libffi, the C calling convention and gcc are exercised by sampling only (x86-64 SysV)",
         "PyObject_Malloc returns memory aligned to at least the largest argument alignment (16)"]
     evaluate(ctx, generate(ctx))
@@ -1007,15 +1110,28 @@ def run(ctx):
 
 MANIFEST = dict(
     technique="Coq proof (conversion equivalence API vs libffi for all values; exchange-buffer layout safety by induction over "
-              "the argument list) + four-path differential execution of compiled random signatures",
-    text="Proof: two hand models (generated-wrapper conversions; convert_from_object/cdata_call), each tied to its own code "
-         "path by differential execution on every run, give for every argument type and every Python value of the modelled "
-         "universe the same C value or the same exception class and never let a call proceed with an exception pending "
-         "(the API bounds are the regenerated source expressions of C03/Gen.v); primitive result conversions agree; variadic "
-         "arguments: non-cdata rejected, cdata promoted as C's default argument promotions except float (refuted, replayed); "
-         "for ALL signatures the slots fb_build assigns are pairwise disjoint, aligned and inside exchange_size. Partial: "
-         "errno, pointed-to memory, struct/pointer results, the equality of the three libffi paths, libffi and the ABI are "
-         "decided by the four-path execution of random compiled signatures only.",
-    note="Trusted: Coq kernel; hand model C13/Model.v (tied by differential testing); gcc; libffi; CPython number protocol "
-         "as modelled (PyLong_AsLongLong, PyFloat_AsDouble). Theorems closed under the global context.",
+              "the argument list, about the fb_build statements translated from the source) + four-path differential execution "
+              "of compiled random signatures + read-back of the real exchange layout",
+    text="Proved for all inputs: C13_conv_agree / C13_call_paths_agree / C13_no_pending_exception (two hand models — generated-"
+         "wrapper conversions; convert_from_object/cdata_call — give for every argument type and every Python value of the "
+         "modelled universe the same C value or the same exception class, and never let a call proceed with an exception "
+         "pending; reflexive for pointer/struct arguments, where both paths call the same backend function; int->float "
+         "arguments with |z| >= 2^24 are outside the modelled universe); C13_source_bounds (the API bounds are the regenerated "
+         "source expressions of C03/Gen.v); C13_result_agree (primitive results); C13_variadic_rejects_non_cdata / "
+         "_promotion_is_C / _narrow_promoted, C13_variadic_float_refuted (replayed, finding); C13_gen_fb_build_is_model: the "
+         "ALIGN_TO/ALIGN_ARG bodies and the layout statements of fb_build, translated from _cffi_backend.c on every run "
+         "(C13/Gen.v fb_build_prog, language C13/FbLang.v), store for EVERY signature exactly C13.Model.fb_build; hence "
+         "C13_exchange_layout_safe / C13_gen_exchange_layout_safe (slots pairwise disjoint, aligned, inside exchange_size, "
+         "result slot >= sizeof(ffi_arg)) speak about the source text; C13_flatten_covers / C13_flatten_count (fb_fill_type's "
+         "elements[] = the scalar leaves of the C struct, over the two regenerated flattening loops). Regenerated facts with "
+         "one obligation each: C13_paths_use_modelled_code (which converter each of the four paths calls; the three libffi "
+         "paths all end in cdata_call), C13_api_macros_resolve (_cffi_exports slots), C13_api_sentinels (the wrapper's in-band "
+         "error values -1 / NULL read from the branch that sets them; a variadic API function is a constant function-pointer "
+         "cdata, i.e. goes through cdata_call). Correspondence on every run: model vs generated wrapper and vs cdata_call "
+         "(callee-received bytes / exception class / primitive results); translated fb_build program vs the cif_description_t "
+         "read back from real function ctypes. Execution only (no theorem): errno, pointed-to memory, struct/pointer results, "
+         "libffi and the ABI.",
+    note="Trusted: Coq kernel; hand model C13/Model.v (tied by differential testing); the literal match of fb_build's control "
+         "skeleton and the unbounded-integer reading of its arithmetic; gcc; libffi; CPython number protocol as modelled "
+         "(PyLong_AsLongLong, PyFloat_AsDouble). Theorems closed under the global context.",
     design_ref="DESIGN.md §4 C13")
